@@ -51,7 +51,8 @@ def size_request(method, small=False):
 @st.composite
 def radial(draw, nmin=1, nmax=8, allow_zero=True, allow_tiny=True, min_gap=0.02, max_gap=1.5):
     """Ascending distinct non-negative nodes, optionally starting at exactly 0, with positive weights."""
-    n = draw(st.integers(nmin, nmax))
+    # integers() alone is biased towards the lower end (a third of the cases would have a single shell)
+    n = draw(st.one_of(st.integers(nmin, nmax), st.integers(min(nmax, max(nmin, 3)), nmax), st.integers(min(nmax, max(nmin, 5)), nmax)))
     kinds = ["normal", "normal", "small"]
     if allow_zero:
         kinds += ["zero", "zero"]
